@@ -32,6 +32,7 @@ import (
 	stakingkeeper "github.com/cosmos/cosmos-sdk/x/staking/keeper"
 	stakingtypes "github.com/cosmos/cosmos-sdk/x/staking/types"
 	gethcommon "github.com/ethereum/go-ethereum/common"
+	"github.com/ethereum/go-ethereum/common/hexutil"
 	"github.com/ethereum/go-ethereum/crypto"
 
 	"github.com/NibiruChain/nibiru/v2/app"
@@ -310,10 +311,52 @@ func runReplicas(r *hx.R, n int, w *hx.W, _ []string) error {
 			hash string
 		}
 		var results []result
-		for _, a := range apps {
+		// replica 1 is a node that also answers RPC queries: between any two transactions of the block it serves read-only EVM
+		// queries (eth_call, eth_estimateGas, debug_traceCall, balance) on a branch of its last committed state; the others serve
+		// none.  Whether a node answered queries is an in-process incidental: all three must still commit the same state.
+		queryPlan := make([]int, len(txs)+1)
+		for i := range queryPlan {
+			queryPlan[i] = -1
+			if r.Chance(1, 2) {
+				queryPlan[i] = r.Pick(4)
+			}
+		}
+		qTarget := ethAccs[1].EthAddr
+		if len(deployed) > 0 {
+			qTarget = deployed[r.Pick(len(deployed))]
+		}
+		serve := func(a *app.NibiruApp, kind int) {
+			if kind < 0 {
+				return
+			}
+			qctx, _ := a.NewContext(true, header).CacheContext()
+			_ = hx.Recover(func() string {
+				from := ethAccs[0].EthAddr
+				hd := hexutil.Bytes([]byte{0})
+				gas := hexutil.Uint64(500_000)
+				switch kind {
+				case 0:
+					jargs, _ := json.Marshal(evm.JsonTxArgs{From: &from, To: &qTarget, Input: &hd})
+					_, _ = a.EvmKeeper.EthCall(sdk.WrapSDKContext(qctx), &evm.EthCallRequest{Args: jargs, GasCap: 500_000})
+				case 1:
+					jargs, _ := json.Marshal(evm.JsonTxArgs{From: &from, To: &qTarget, Input: &hd})
+					_, _ = a.EvmKeeper.EstimateGas(sdk.WrapSDKContext(qctx), &evm.EthCallRequest{Args: jargs, GasCap: 500_000})
+				case 2:
+					targs := evm.JsonTxArgs{From: &from, To: &qTarget, Data: &hd, Gas: &gas}
+					_, _ = a.EvmKeeper.TraceCall(sdk.WrapSDKContext(qctx), &evm.QueryTraceTxRequest{Msg: targs.ToMsgEthTx()})
+				default:
+					_, _ = a.EvmKeeper.Balance(sdk.WrapSDKContext(qctx), &evm.QueryBalanceRequest{Address: from.Hex()})
+				}
+				return "ok"
+			})
+		}
+		for ai, a := range apps {
 			a.BeginBlock(abci.RequestBeginBlock{Header: header})
 			var res result
-			for _, bz := range txs {
+			for ti, bz := range txs {
+				if ai == 1 {
+					serve(a, queryPlan[ti])
+				}
 				rr := a.DeliverTx(abci.RequestDeliverTx{Tx: bz})
 				res.txs = append(res.txs, fmt.Sprintf("%d/%x/%d/%d", rr.Code, rr.Data, rr.GasWanted, rr.GasUsed))
 				if rr.Code != 0 && os.Getenv("VERIF_DEBUG_DIFF") != "" {
